@@ -22,7 +22,7 @@ from ..harness import WORK, VERIF, REPO, digest
 
 MANIFEST = {
     'text': 'Held on every history executed: ALL histories of depth 3 (quick) / 4 (thorough) over a 20-operation alphabet, from both the never-set-up and the set-up start state, plus seeded random histories of length <= 12 that also call mask_sift, ensemble_sift and complete_ensemble_sift, are run against the real emd.logger and the decorated sift variants; after every step emd.logger.get_level() must equal a two-variable model, every returning call must reproduce the no-logger baseline bit-for-bit, every call made to fail must raise its input error (never a logging error) and leave the level unchanged, and the set of emd handlers must be unchanged by a decorated call. Sampled histories are re-run in fresh interpreters to validate the in-process logger reset (a mismatch makes the run inconclusive). Exhaustive at the stated depth, sampling beyond. A quarter of the shards run in a session that turns Deprecation/Future/UserWarnings into errors.',
-    'note': 'Trusted: the stdlib logging module. stdout is replaced by a null sink; log files go to /verif/.work.',
+    'note': 'Trusted: the stdlib logging module. In-process histories run with stdout replaced by a null sink; what reaches file descriptor 1 is observed in fresh interpreters whose stdout is a file under /verif/.work; log files go to /verif/.work.',
     'technique': 'exhaustive bounded history exploration against a state model, with the level-restore invariant asserted after every decorated call',
 }
 BUDGET_S = {'quick': 70, 'thorough': 480}
